@@ -266,10 +266,10 @@ static void wkd_rows(void) {
     ROW(embedded_pairing_lqibe_keygen, { memset(&ls1, 0, sizeof ls1); memset(&ls2, 0, sizeof ls2); rng_cb(ih.hash, 48); embedded_pairing_lqibe_compute_id_from_hash(&id1, &ih); embedded_pairing_lqibe_keygen(&ls1, &lm1, &id1);
         lq::keygen(*(lq::SecretKey*) &ls2, *(lq::MasterKey*) &lm1, *(lq::ID*) &id1); ok = eqa(*(G1Affine*) &ls1.sq, *(G1Affine*) &ls2.sq); })
     uint8_t k1[64], k2[64];
-    ROW(embedded_pairing_lqibe_encrypt, { memset(&lc1, 0, sizeof lc1); memset(&lc2, 0, sizeof lc2); memset(k1, 0, 64); memset(k2, 0, 64); RESEED(t); embedded_pairing_lqibe_encrypt(&lc1, k1, 16 + t, &lp1, &id1, hash_cb, rng_cb); RESEED(t);
-        lq::encrypt(*(lq::Ciphertext*) &lc2, k2, 16 + t, *(lq::Params*) &lp1, *(lq::ID*) &id1, hash_cb, rng_cb); ok = eqa(*(G2Affine*) &lc1.rp, *(G2Affine*) &lc2.rp) && memcmp(k1, k2, 64) == 0; })
-    ROW(embedded_pairing_lqibe_decrypt, { memset(k1, 0, 64); memset(k2, 0, 64); uint8_t k0[64]; memset(k0, 0, 64); RESEED(t); embedded_pairing_lqibe_encrypt(&lc1, k0, 16 + t, &lp1, &id1, hash_cb, rng_cb);
-        embedded_pairing_lqibe_decrypt(k1, 16 + t, &lc1, &ls1, &id1, hash_cb); lq::decrypt(k2, 16 + t, *(lq::Ciphertext*) &lc1, *(lq::SecretKey*) &ls1, *(lq::ID*) &id1, hash_cb); ok = memcmp(k1, k2, 64) == 0 && memcmp(k0, k1, 64) == 0; })
+    ROW(embedded_pairing_lqibe_encrypt, { memset(&lc1, 0, sizeof lc1); memset(&lc2, 0, sizeof lc2); memset(k1, 0, 64); memset(k2, 0, 64); RESEED(t); embedded_pairing_lqibe_encrypt(&lc1, k1, 16 + t % 48, &lp1, &id1, hash_cb, rng_cb); RESEED(t);
+        lq::encrypt(*(lq::Ciphertext*) &lc2, k2, 16 + t % 48, *(lq::Params*) &lp1, *(lq::ID*) &id1, hash_cb, rng_cb); ok = eqa(*(G2Affine*) &lc1.rp, *(G2Affine*) &lc2.rp) && memcmp(k1, k2, 64) == 0; })
+    ROW(embedded_pairing_lqibe_decrypt, { memset(k1, 0, 64); memset(k2, 0, 64); uint8_t k0[64]; memset(k0, 0, 64); RESEED(t); embedded_pairing_lqibe_encrypt(&lc1, k0, 16 + t % 48, &lp1, &id1, hash_cb, rng_cb);
+        embedded_pairing_lqibe_decrypt(k1, 16 + t % 48, &lc1, &ls1, &id1, hash_cb); lq::decrypt(k2, 16 + t % 48, *(lq::Ciphertext*) &lc1, *(lq::SecretKey*) &ls1, *(lq::ID*) &id1, hash_cb); ok = memcmp(k1, k2, 64) == 0 && memcmp(k0, k1, 64) == 0; })
 #define LROWS(name, ctype, cpptype, obj) \
     MROW(embedded_pairing_lqibe_##name##_marshal, embedded_pairing_lqibe_##name##_marshal(m1, &obj, c), ((cpptype*) &obj)->marshal<true>(m2), ((cpptype*) &obj)->marshal<false>(m2), 1024) \
     UROW(embedded_pairing_lqibe_##name##_unmarshal, ctype, cpptype, obj, embedded_pairing_lqibe_##name##_marshal(m1, &obj, c)) \
